@@ -7,6 +7,6 @@ CONSTANTS
   WorkUnits = {}
   MaxCounter = 0
   Strict = TRUE
-INVARIANTS NoStaleIntern InternOK CursorOK MarkedSinceOK ReclaimedOK ModulePartsPermanent
+INVARIANTS PermanentFlagged NoStaleIntern InternOK CursorOK MarkedSinceOK ReclaimedOK ModulePartsPermanent
 POSTCONDITION AllConsumed
 CHECK_DEADLOCK FALSE
